@@ -443,6 +443,102 @@ class Interp:
         return r
 
 
+# ---- R-EXACT-KEY: sources that answer from a map built at start-up look the request path up literally
+KEY_PURE = ("as_str", "as_ref", "borrow", "deref", "clone", "to_string", "to_owned", "into", "as_bytes", "to_path_buf")
+
+
+def _key_ops(P, e, src, lets, depth=0):
+    """operations between the request (locals in `src`) and the lookup key expression `e`, other than representation changes
+    and the removal of the single leading '/' ; returns (rooted_in_request, [offending operation descriptions])"""
+    e = ir.unparen(ir.strip(e)) if e is not None else None
+    if e is None:
+        return False, ["?"]
+    k = e.get("k")
+    if k == "path" and e.get("r") == "local":
+        if e["hid"] in src:
+            return True, []
+        if e["hid"] in lets:
+            return _key_ops(P, lets[e["hid"]], src, lets, depth)
+        return False, []
+    if k == "field":
+        return _key_ops(P, e["e"], src, lets, depth)
+    if k in ("cast", "try"):
+        return _key_ops(P, e["e"], src, lets, depth)
+    if k == "index":
+        r, ops = _key_ops(P, e["e"], src, lets, depth)
+        i = ir.unparen(e["i"])
+        lo = None
+        if i.get("k") == "struct" and (i.get("q") or "").endswith("RangeFrom") and len(i.get("fields", ())) == 1:
+            lo = ir.const_eval(i["fields"][0]["e"], {})
+        if lo not in (0, 1):
+            ops = ops + ["slice %s" % (ir.place_str(e) or "[..]")]
+        return r, ops
+    if k == "mcall":
+        r, ops = _key_ops(P, e["recv"], src, lets, depth)
+        nm = e.get("name")
+        if nm in KEY_PURE and not e.get("a"):
+            return r, ops
+        if nm in ("unwrap", "expect", "unwrap_or", "unwrap_or_default") :
+            return r, ops
+        if nm == "strip_prefix" and e.get("a") and ir.const_eval_str(e["a"][0]) == "/":
+            return r, ops
+        if nm == "strip_prefix" and e.get("a") and ir.strip(e["a"][0]).get("k") == "lit" and ir.strip(e["a"][0]).get("v") in ("/", "'/'"):
+            return r, ops
+        return r, ops + [nm + "(..)"] if r else ops
+    if k == "call":
+        q = e.get("q") or ""
+        if q.endswith(("::from", "::into", "Some::{Ctor#0}", "::as_ref", "::borrow", "::deref")) and len(e.get("a", ())) == 1:
+            return _key_ops(P, e["a"][0], src, lets, depth)
+        cal = P.fn(q)
+        rooted_args = [(i, a) for i, a in enumerate(e.get("a", ())) if _key_ops(P, a, src, lets, depth)[0]]
+        if not rooted_args:
+            return False, []
+        ops = []
+        for _, a in rooted_args:
+            ops += _key_ops(P, a, src, lets, depth)[1]
+        if cal is not None and depth < 3:
+            # look into the helper: its value as a function of the parameters that carry the request
+            params = [x for p_ in cal.get("params", ()) for x in ir.pat_binds(p_)]
+            blk = ir.fn_block(cal)
+            tail = blk.get("tail") if blk.get("k") == "block" else blk
+            if tail is not None and len(params) == len(e.get("a", ())):
+                src2 = {params[i]["hid"] for i, _ in rooted_args}
+                lets2 = {}
+                for n in ir.walk_nodes(blk):
+                    if n.get("k") == "let" and "init" in n and n["pat"].get("k") == "bind":
+                        lets2[n["pat"]["hid"]] = n["init"]
+                r2, ops2 = _key_ops(P, tail, src2, lets2, depth + 1)
+                return True, ops + ["%s: %s" % (q.rsplit("::", 1)[-1], o) for o in ops2]
+        return True, ops + [q.rsplit("::", 1)[-1] + "(..)"]
+    if k == "block":
+        if e.get("stmts"):
+            return True, ["block"]
+        return _key_ops(P, e.get("tail"), src, lets, depth)
+    if k in ("lit",):
+        return False, []
+    # anything else built from the request (format!, if/match expressions, closures)
+    rooted = any(y.get("k") == "path" and y.get("r") == "local" and y.get("hid") in src for y in ir.walk_nodes(e))
+    return rooted, (["%s expression" % k] if rooted else [])
+
+
+def exact_key_rule(ck, P, b, urlh):
+    lets = {}
+    for n in ir.walk_nodes(b["body"]):
+        if n.get("k") == "let" and "init" in n and n["pat"].get("k") == "bind":
+            lets[n["pat"]["hid"]] = n["init"]
+    looks = [n for n in ir.walk_nodes(b["body"]) if n.get("k") == "mcall" and n.get("name") in ("get", "get_mut", "contains_key", "get_key_value") and n.get("a") and
+             ("HashMap" in (ir.strip(n["recv"]).get("t") or "") or "BTreeMap" in (ir.strip(n["recv"]).get("t") or "")) and
+             ir.place_str(n["recv"]).startswith("self.")]
+    if not ck.check(bool(looks), "R-EXACT-KEY", b["q"] + "|lookup", "the source answers from a map held by self", "no map lookup on self found in a source without filesystem access", ir.loc(b)):
+        return
+    for j, n in enumerate(looks):
+        rooted, ops = _key_ops(P, n["a"][0], {urlh}, lets)
+        ck.check(rooted and not ops, "R-EXACT-KEY", "%s|key#%d" % (b["q"], j + 1),
+                 "the lookup key is the request path itself (at most its single leading '/' removed): no segment is dropped, trimmed or rewritten",
+                 ("the lookup key is derived from the request path through %s: different request paths (`/../x`, `//x`, `/./x`) collapse onto the entry `x`, "
+                  "so paths that leave the archive root are answered with 200" % ops) if rooted else "the lookup key is not derived from the request path", ir.loc(n))
+
+
 def rules(ck, P):
     impls = P.impls_of("::StaticSourceTrait")
     if not ck.anchor("R-TAINT-FS", "impl StaticSourceTrait", impls, 2):
@@ -464,6 +560,7 @@ def rules(ck, P):
         ords = {}
         if not it.sinks:
             ck.ok("R-TAINT-FS", b["q"] + "|no-sink", "no filesystem content sink is reachable with request-derived data (lookup in a map built at start-up)", ir.loc(b))
+            exact_key_rule(ck, P, b, urlp[0]["hid"])
         for (n, st, q) in it.sinks:
             n_sinks += 1
             ords[q] = ords.get(q, 0) + 1
